@@ -7,6 +7,15 @@ ids = [p["id"] for p in props]
 
 # id -> (category, technique, text, note, design_ref)
 claimed = {
+ "C07": ("model_checking", "exhaustive (incoming stanza x handler program x wiring) product through the real Session.Serve (nd explorer), wire output counted against a reference",
+         "Full product of 3 stanza kinds x 7 types x id x 4 from x 2 to x 5 payload shapes x 2 namespaces x 15 handler programs x payload consumption x {bare handler, mux with handler, mux without} x {first stanza, after an earlier request} (504k executions): the bytes written during Serve are parsed and the top-level result/error IQs carrying the request id are counted against what the handler program wrote; exactly one reply (handler's or the automatic service-unavailable addressed to the sender) or a terminated stream.",
+         "Trusted: encoding/xml for parsing the wire. Stream termination is judged by Serve's result because the session does not flush its stream errors (pinned by the repository's tests). Pending-request interference (an incoming request whose id equals an outstanding SendIQ) is a schedule question and belongs to C06.", "6/C07"),
+ "C08": ("model_checking", "exhaustive (input sequence x handler consumption program) product through the real Session.Serve (nd explorer) against a reference splitter",
+         "Every sequence of <=3 (quick) / <=4 (thorough) items over 25 top-level items (stanzas, non-stanza elements, keep-alives, text, comments, PIs, directives, stream errors, restarts, other stream elements, closing tag, malformed tags, and the stream-level constructs nested at depth 1 and 2) x 6 handler programs x 2 namespaces; the reference (each item tokenised on its own) fixes invocation count, start element incl. from blanking, the obtainable tokens and Serve's result class.",
+         "Trusted: encoding/xml tokenisation (used by both sides, so only slicing/dispatch is compared). Raw EOF without closing tag may end Serve either way.", "6/C08"),
+ "C19": ("exploration", "bounded-exhaustive value and XML-tree enumeration (nd explorer) over a registry of 50 payload types",
+         "For 50 extension payload types: full cross product of field pools when small, else every value with <=3 (quick) / <=4 (thorough) fields off their default; data forms through New/Set/Submit with every field type; wrap/unwrap pairs; request payloads captured from the helper functions; every XML tree of <=4 (5) nodes over each decoder's own vocabulary decoded into fresh, reused and preallocated targets. Laws: both encoders well-formed, decode to the same value, equal to the original under a per-type normaliser; no panics.",
+         "Trusted: encoding/xml (+ duplicate attribute check); per-type normalisers documented in props/c19/types.go; internal/saslerr cannot be imported and is not covered.", "6/C19"),
  "C13": ("exploration", "bounded-exhaustive value enumeration (nd explorer), two encoders x decoder round trip with encoding/xml as judge",
          "Full cross product of IQ/message/presence headers (3 namespaces, 6 ids, 4x4 addresses incl. resourceparts with quotes/&/<>, 3 langs, every defined type), stanza.Error values (types x conditions x by x 0-2 language texts, bare and through IQ.Error/UnmarshalIQError) and stream.Error values (conditions x texts x content x application payloads): xml.Marshal and TokenReader output are both well-formed, decode to the same value, equal the original; Wrap/Result/Error helper and StartElement/NewX inverse laws.",
          "Trusted: encoding/xml (plus a duplicate-attribute check). The stanza namespace is not carried by the xml.Marshal path of IQ/Message/Presence (inherited from the stream) and is compared on the token path only.", "6/C13"),
